@@ -6,3 +6,6 @@ if [ ! -d .deps/z3 ]; then
   /venv/bin/pip install -q --no-index --find-links /opt/veriftools/wheels --target .deps z3-solver crosshair-tool
 fi
 /venv/bin/python -c "import sys; sys.path.insert(0,'.deps'); import z3; print('z3', z3.get_version_string())"
+# validate the source rewrite and the pyx lowering against the repository's own tests (concrete mode, engine off)
+tools/selftest_instrumented.py py 2>&1 | tail -1
+tools/selftest_instrumented.py c 2>&1 | tail -1
